@@ -78,7 +78,7 @@ theorem tokenize_semi_nl (pu : Bool) (g : Nat) :
   have h3 : isUncap '\n' = true := by decide
   simp [tokenize, nextTok, next, skipWs, h1, h2, h3]
 
-theorem xs_ne_nil (o : WOpts) (t : NT) (h : LL (toRT o t)) : xs (wrNode o true t) ≠ [] := by
+theorem xs_ne_nil (o : WOpts) (t : NT) (h : isBlank (toRT o t) = false) : xs (wrNode o true t) ≠ [] := by
   intro he
   have hv := view_wrNode o t true
   simp only [if_true, List.nil_append] at hv
@@ -88,7 +88,7 @@ theorem xs_ne_nil (o : WOpts) (t : NT) (h : LL (toRT o t)) : xs (wrNode o true t
 /-- tokenizing the written statement: the token kinds are exactly what the writer's callbacks emitted, then `;`;
     the rooting / weight comments are attached to the first token and nothing else carries a comment -/
 theorem statement_tokens' (o : WOpts) (pu : Bool) (hc : Consistent o.ps o.uu pu) (rooting : Nat) (weight : Option Str)
-    (t : NT) (hok : OkT o t) (hll : LL (toRT o t)) (hw : ∀ w, weight = some w → LenOk w) :
+    (t : NT) (hok : OkT o t) (hll : isBlank (toRT o t) = false) (hw : ∀ w, weight = some w → LenOk w) :
     ∃ first rest, tokenizeAll pu (writeTree o rooting weight t ++ ['\n']) = ⟨first :: rest, true, false⟩ ∧
       (first :: rest).map kind = view (wrNode o true t) ++ [.semi] ∧
       first.cm = comments o rooting weight ∧ ∀ x ∈ rest, x.cm = [] := by
